@@ -37,7 +37,7 @@ class C02(Scenario):
 
     def generate(self, rng, tier, profile):
         big = tier == "thorough"
-        opts = specmod.merge_opts(depth=5 if big else 4, max_nodes=40 if big else 24, regime=profile)
+        opts = specmod.merge_opts(depth=5 if big else 4, max_nodes=40 if big else 24, regime=profile, count_transform=0.08)
         sp = specmod.gen_spec(rng.fork("tree"), opts)
         crit = specmod.critical_values(sp, profile)
         d = rng.fork("data")
